@@ -18,7 +18,7 @@ decided.
 
 import ast
 
-from ..astutil import Env, chain, src, walk, const, stmts, strip_not, reaching_value
+from ..astutil import Env, chain, src, walk, const, stmts, strip_not, reaching_value, is_none_test
 from ..model import Unrecognised
 from .c13 import name_is
 
@@ -165,19 +165,34 @@ def dict_keys(model, R):
     R.check(ok, 'CACHE-KEY', g or 'tools.lazyproperty.__get__', g.node if g else lp.node, 'lazyproperty caches under the wrapped function\'s name',
             'instance.__dict__[self.__name__] = self.fget(instance)')
     # ignore_lattice=None means "only if already computed"
-    branches = [s for s in td.body if isinstance(s, ast.If)]
-    ok = False
-    if branches:
-        b = branches[0]
-        first_pass = name_is(b.test, td.params[1]) and all(isinstance(x, ast.Pass) for x in b.body)
-        second = b.orelse[0] if len(b.orelse) == 1 and isinstance(b.orelse[0], ast.If) else None
-        if first_pass and second is not None:
-            t = second.test
-            ok = (isinstance(t, ast.BoolOp) and isinstance(t.op, ast.And) and src(t.values[0]) == f'{td.params[1]} is None'
-                  and src(t.values[1]) == "'lattice' not in self.__dict__" and all(isinstance(x, ast.Pass) for x in second.body)
-                  and lat and lat[0] in second.orelse)
-    R.check(ok, 'AGREEMENT', td, branches[0] if branches else td.node, 'todict: lattice omitted iff ignored, or None-mode and not yet computed',
-            "if ignore: pass / elif ignore is None and 'lattice' not in self.__dict__: pass / else: write")
+    from ..astutil import path_condition
+    from .. import guards
+    flag = td.params[1]
+    pc = path_condition(td.body, lat[0]) if lat else None
+    if pc is None:
+        R.unknown('AGREEMENT', td, td.node, 'todict: lattice omitted iff ignored, or None-mode and not yet computed', 'cannot derive when the lattice is written')
+    else:
+        def atomizer(n):
+            if name_is(n, flag):
+                return ('Truthy(flag)', True)
+            nt = is_none_test(n)
+            if nt and nt[0] == flag:
+                return ('IsNone(flag)', nt[1])
+            if (isinstance(n, ast.Compare) and len(n.ops) == 1 and isinstance(n.ops[0], (ast.In, ast.NotIn)) and const(n.left) == 'lattice'
+                    and src(n.comparators[0]) == f'{td.params[0]}.__dict__'):
+                return ('Cached', isinstance(n.ops[0], ast.In))
+            return None
+        try:
+            parts = [(guards.compile_formula(t, atomizer), pol) for t, pol in pc]
+            atoms = ['Truthy(flag)', 'IsNone(flag)', 'Cached']
+            written = guards.Formula(lambda e: all(bool(f(e)) == pol for f, pol in parts), atoms, ' and '.join(('' if pol else 'not ') + f'({f.text})' for f, pol in parts))
+            diff = guards.equivalent(written, lambda e: (not e['Truthy(flag)']) and not (e['IsNone(flag)'] and not e['Cached']), atoms,
+                                     constraint=lambda e: not (e['IsNone(flag)'] and e['Truthy(flag)']))
+            R.decided(diff is None, 'AGREEMENT', td, lat[0], 'todict: lattice omitted iff ignored, or None-mode and not yet computed',
+                      "written iff not ignore_lattice and not (ignore_lattice is None and 'lattice' not in self.__dict__)", written.text or 'always',
+                      extra={'differs_at': diff} if diff else None)
+        except Unrecognised as e:
+            R.unknown('AGREEMENT', td, e.node or td.node, 'todict: condition for writing the lattice', e.what)
 
 
 def literal_and_json(model, R):
@@ -209,13 +224,21 @@ def literal_and_json(model, R):
     for key in ('contexts.Data.fromstring', 'contexts.Data.fromfile'):
         f = model.func(key)
         ifs = [s for s in f.body if isinstance(s, ast.If) and 'serialized' in src(s.test)]
-        ok = False
+        verdict = None
         if ifs:
             t = ifs[0].test
             ret = ifs[0].body[0] if ifs[0].body else None
-            ok = (src(t) == 'args.serialized is not None' and isinstance(ret, ast.Return) and src(ret.value) == f'{f.params[0]}.fromdict(args.serialized)')
-        R.check(ok, 'AGREEMENT', f, ifs[0] if ifs else f.node, f'{f.name}: a serialized dict is routed through fromdict',
-                'if args.serialized is not None: return cls.fromdict(args.serialized)', src(ifs[0])[:100] if ifs else 'no routing')
+            nt = is_none_test(t)
+            if nt and nt[0].endswith('.serialized') and isinstance(ret, ast.Return) and isinstance(ret.value, ast.Call) and len(ifs[0].body) == 1:
+                holder = nt[0][:-len('.serialized')]
+                routed = (chain(ret.value.func) == [f.params[0], 'fromdict'] and len(ret.value.args) == 1 and src(ret.value.args[0]) == f'{holder}.serialized')
+                verdict = routed and nt[1] is False
+        if verdict is None:
+            R.unknown('AGREEMENT', f, ifs[0] if ifs else f.node, f'{f.name}: a serialized dict is routed through fromdict',
+                      src(ifs[0])[:100] if ifs else 'no test of .serialized in this function')
+        else:
+            R.decided(verdict, 'AGREEMENT', f, ifs[0], f'{f.name}: a serialized dict is routed through fromdict',
+                      'if args.serialized is not None: return cls.fromdict(args.serialized)', src(ifs[0])[:100])
     for key in ('contexts.FormattingMixin.tostring', 'contexts.ExportableMixin.tofile'):
         f = model.func(key)
         ifs = [s for s in f.body if isinstance(s, ast.If) and 'PythonLiteral' in src(s.test)]
